@@ -39,7 +39,7 @@ def ort_session(model):
 def run_ort(model, feeds, session=None):
     try:
         sess = session or ort_session(model)
-        names = {i.name for i in sess.get_inputs()}
+        names = {i.name for i in sess.get_inputs()} | {i.name for i in sess.get_overridable_initializers()}
         out = sess.run(None, {k: v for k, v in feeds.items() if k in names})
         return ("ok", [_norm(o) for o in out])
     except Exception as e:  # noqa: BLE001
